@@ -178,6 +178,14 @@ def tlc_scenario_to_harness(js, sid, driver):
                     flags["dryRunOption"] = sp
                 flags["postRender"] = (h // 4) % 2 == 0
                 flags["cancelled"] = (h // 8) % 3 == 0
+                # through the command line a dry install is, one time in three, spelled "helm template" instead:
+                # with --validate (and any --dry-run value) for a server-side dry run, plain for client-only
+                if m["kind"] == "install" and not m.get("install"):
+                    if m.get("clientOnly"):
+                        flags["tplDry"] = ["", "false", "none", "client", "server", "true"][(h // 24) % 6]
+                    elif (h // 24) % 3 == 0:
+                        flags["tpl"] = ["validate", "validate-false", "validate-none", "validate-server", "validate-client"][(h // 72) % 5]
+                        flags["replace"] = True      # helm template always sets Replace (no name check)
             s = {"op": m["kind"], "flags": flags, "proc": st.get("p", 1)}
             if m["chart"] != "none":
                 s["chart"] = m["chart"]
